@@ -18,6 +18,12 @@
  *   S 0 <path> <ch> <rate> <qi> <pl> <ns>  one explicit VBR tuple;  S 1 <path> <ch> <rate> <max> <nominal> <min> <pl> <ns>  one explicit managed tuple.
  *                                          pl = 10+s (in G, M and S): pipeline 2 with signal SIGNAMES[s] instead of noise (over-full-scale sines,
  *                                          square wave, level sweep, FLT_MAX / inf / NaN bursts)
+ *   L <managed> <path> <ch> <rate> <q|nominal> <cpl> <lowpass_kHz|-> <ns>   geometry family (rate / quality / lowpass -> residue and psychoacoustic
+ *                                          geometry): one explicit tuple.  managed 0: quality q (decimal text, read as float); 1: nominal bitrate
+ *                                          (max = min = -1).  path 0 = one-step call (only without requests), 1 = setup_* [+ OV_ECTL_COUPLING_SET cpl
+ *                                          when cpl >= 0] [+ OV_ECTL_LOWPASS_SET lowpass_kHz unless '-'] + setup_init.  After success pipeline 2 with
+ *                                          the signal 'broadband noise, quiet then loud (one transient)'; ns <= 0: 3*blocksizes[1] samples.
+ *                                          Reports geo=<template>/<blocksizes>/<floor n>/<residue type.grouping.begin-end>, blk=<long/short blocks>, lpr=<lowpass/Nyquist>
  *   T                                      print the tables (rates, qualities, ops, bases) as one line of JSON-ish text
  * output: <idx> ok n=<set-ups> cls=<class>*<count>,...  succ=<ch>/<template>*<count>,.. st=<hash>:<ops>,.. leak=<desc>*<bytes>,.. bad=<kind>@<desc>;..
  * A non-empty bad= is a property violation on that tuple.  */
@@ -220,16 +226,18 @@ static int info_is_zero(const vorbis_info *vi){ vorbis_info z; memset(&z,0,sizeo
 /* ------------------------------------------------------------ the pipeline */
 static unsigned long g_lcg;
 static float noise(void){ g_lcg=g_lcg*6364136223846793005UL+1442695040888963407UL; return ((long)((g_lcg>>33)&0xffff)-32768)/65536.f; }
-typedef struct { long packets,bytes,blocks; int bigpad; } encstat;
+typedef struct { long packets,bytes,blocks; int bigpad; long longb,shortb; } encstat;
 /* signal alphabet for the encode stage (pl = 10+index; pl 2 = the +-0.5 noise above).  The float API accepts any value:
    over-full-scale tones, a square wave, an exponential level sweep, and bursts of FLT_MAX / inf / NaN inside noise. */
 #include <float.h>
+#define SIG_GEOM 90     /* pl = 100: the geometry family's signal (not a member of the over-range alphabet) */
 static const char *const SIGNAMES[]={"sine_x2","sine_x4","sine_x100","sine_x1e6","square_x4","sweep_1e-4..1e4","fltmax_bursts","inf_bursts","nan_bursts"};
 #define NSIG ((int)(sizeof(SIGNAMES)/sizeof(SIGNAMES[0])))
 static float sigsample(int sig,long k,int c,long rate,long ns){
   double f=(rate>4000?1000.:rate/8.+1e-3)/(double)(rate>0?rate:1), ph=2.*M_PI*f*k+c*.3, s=sin(ph);
   int burst=((k&511)>=200&&(k&511)<216);       /* 16 samples in every 512 */
   switch(sig){
+  case SIG_GEOM: { float a=noise(); return (k*5<ns*3)?a*.004f:a*1.6f; }   /* broadband; 60% quiet, then 52 dB louder: one transient, both block sizes */
   case 0: return (float)(2.*s);
   case 1: return (float)(4.*s);
   case 2: return (float)(100.*s);
@@ -291,7 +299,7 @@ static void pipeline(vorbis_info *vi,long ch,long rate,int level,long ns,char *b
       }else{ r=vorbis_analysis_wrote(&vd,0); eos=1; }
       if(r){ snprintf(bad,badn,"analysis_wrote_rc%d",r); break; }
       while((r=vorbis_analysis_blockout(&vd,&vb))==1){
-        es->blocks++;
+        es->blocks++; if(vb.W)es->longb++; else es->shortb++;
         r=vorbis_analysis(&vb,NULL); if(r){ snprintf(bad,badn,"analysis_rc%d",r); break; }
         r=vorbis_bitrate_addblock(&vb); if(r){ snprintf(bad,badn,"addblock_rc%d",r); break; }
         while((r=vorbis_bitrate_flushpacket(&vd,&op))==1){
@@ -351,7 +359,7 @@ static void one_setup(acc *A,int managed,int path,long ch,long rate,float q,long
     if(vi.channels!=ch||vi.rate!=rate){ snprintf(kind,sizeof(kind),"request_not_echoed:%s:ch%d_rate%ld",path?"setup_init":fn,vi.channels,vi.rate); acc_bad(A,kind,desc); }
     snprintf(sk,sizeof(sk),"%ld/%s/%s",ch,managed?"M":"V",tl); cs_add(&A->succ,sk,1);
     if(pl>0){
-      encstat es={0,0,0,0};
+      encstat es={0,0,0,0,0,0};
       pipeline(&vi,ch,rate,pl,ns,pb,sizeof(pb),&es);
       if(pb[0]){ snprintf(kind,sizeof(kind),"after_success:%s",pb); acc_bad(A,kind,desc); }
       snprintf(sk,sizeof(sk),"pl%d/ns%ld/%s",pl,ns,es.bigpad?"bigpad_not_encoded":(es.packets?"packets":"nopackets")); cs_add(&A->enc,sk,1);
@@ -361,6 +369,76 @@ static void one_setup(acc *A,int managed,int path,long ch,long rate,float q,long
   if(!info_is_zero(&vi))acc_bad(A,"info_not_zero_after_clear",desc);
   vorbis_info_clear(&vi);
   if(wa_live_bytes!=base){ char lk[260]; snprintf(lk,sizeof(lk),"%s:%s",cls,desc); cs_add(&A->leak,lk,wa_live_bytes-base); }
+  wa_on=0;
+}
+
+/* ---------------------------------------------------------- geometry family */
+/* names the geometry the set-up arrived at (read-only, for the coverage counts): template, block sizes, floor n, every residue's type.grouping.begin-end */
+static void geom_label(vorbis_info *vi,char *out,size_t n){
+  codec_setup_info *ci=(codec_setup_info*)vi->codec_setup; char tl[64]; int i; size_t k;
+  tmpl_label(ci->hi.setup,tl);
+  k=snprintf(out,n,"%s/%ld.%ld/f",tl,ci->blocksizes[0],ci->blocksizes[1]);
+  for(i=0;i<ci->floors&&i<8&&k<n;i++)k+=snprintf(out+k,n-k,"%s%d",i?".":"",ci->floor_type[i]==1?((vorbis_info_floor1*)ci->floor_param[i])->n:-1);
+  if(k<n)k+=snprintf(out+k,n-k,"/r");
+  for(i=0;i<ci->residues&&i<8&&k<n;i++){
+    vorbis_info_residue0 *r=(vorbis_info_residue0*)ci->residue_param[i];
+    if(r)k+=snprintf(out+k,n-k,"%s%d.%d.%ld-%ld",i?"_":"",ci->residue_type[i],r->grouping,r->begin,r->end);
+  }
+}
+/* one tuple: setup_* [+ COUPLING_SET] [+ LOWPASS_SET] + setup_init (or the one-step call when no request is made), then the whole encode stage */
+static void one_geom(acc *A,int managed,int path,long ch,long rate,float q,long nom,int cpl,int has_lp,double lp,long ns,cset *geo,cset *blk,double *lpr){
+  vorbis_info vi; int r1=0,r2=0,rc,rcp=1,rlp=1; char desc[240],cls[240],tl[64],qb[32],lb[40],kind[120],pb[120]; long base; const char *fn1,*fn; size_t k;
+  if(has_lp)snprintf(lb,sizeof(lb),"%.17g",lp); else strcpy(lb,"-");
+  if(cpl>=0||has_lp)path=1;
+  if(managed)snprintf(desc,sizeof(desc),"managed:p%d:ch=%ld:rate=%ld:max=-1:nom=%ld:min=-1:cpl=%d:lp=%s",path,ch,rate,nom,cpl,lb);
+  else snprintf(desc,sizeof(desc),"vbr:p%d:ch=%ld:rate=%ld:q=%s:cpl=%d:lp=%s",path,ch,rate,qname(q,qb),cpl,lb);
+  fn1=managed?"setup_managed":"setup_vbr"; fn=managed?"init":"init_vbr";
+  g_ord=A->n; snprintf(g_desc,sizeof(g_desc),"%s",desc);
+  A->n++;
+  if(skipped(g_ord)){ cs_add(&A->cls,"SKIPPED",1); return; }
+  wa_on=1; base=wa_live_bytes;
+  vorbis_info_init(&vi);
+  strcpy(tl,"-");
+  if(path==0){
+    rc=managed?vorbis_encode_init(&vi,ch,rate,-1,nom,-1):vorbis_encode_init_vbr(&vi,ch,rate,q);
+    if(!documented(rc)){ snprintf(kind,sizeof(kind),"undocumented_rc:%s:%d",fn,rc); acc_bad(A,kind,desc); }
+    if(rc!=0&&!info_is_zero(&vi)){ snprintf(kind,sizeof(kind),"info_not_cleared_after_failure:%s:%d",fn,rc); acc_bad(A,kind,desc); }
+    if(rc==0&&vi.codec_setup)tmpl_label(((codec_setup_info*)vi.codec_setup)->hi.setup,tl);
+    snprintf(cls,sizeof(cls),"%s:%s:%d:%s",managed?"M":"V",fn,rc,tl);
+  }else{
+    r1=managed?vorbis_encode_setup_managed(&vi,ch,rate,-1,nom,-1):vorbis_encode_setup_vbr(&vi,ch,rate,q);
+    if(!documented(r1)){ snprintf(kind,sizeof(kind),"undocumented_rc:%s:%d",fn1,r1); acc_bad(A,kind,desc); }
+    k=snprintf(cls,sizeof(cls),"%s:%s:%d",managed?"M":"V",fn1,r1);
+    if(r1==0){      /* requests only in the documented order: after a successful setup_*, before setup_init */
+      if(cpl>=0){ int iv=cpl; rcp=vorbis_encode_ctl(&vi,OV_ECTL_COUPLING_SET,&iv); k+=snprintf(cls+k,sizeof(cls)-k,":ctl_coupling:%d",rcp);
+        if(!(rcp==0||rcp==OV_EINVAL||rcp==OV_EIMPL)){ snprintf(kind,sizeof(kind),"undocumented_rc:ctl_CP_SET:%d",rcp); acc_bad(A,kind,desc); } }
+      if(has_lp){ double dv_=lp; rlp=vorbis_encode_ctl(&vi,OV_ECTL_LOWPASS_SET,&dv_); k+=snprintf(cls+k,sizeof(cls)-k,":ctl_lowpass:%d",rlp);
+        if(!(rlp==0||rlp==OV_EINVAL||rlp==OV_EIMPL)){ snprintf(kind,sizeof(kind),"undocumented_rc:ctl_LP_SET:%d",rlp); acc_bad(A,kind,desc); } }
+    }
+    tmpl_label(((codec_setup_info*)vi.codec_setup)->hi.setup,tl);
+    r2=vorbis_encode_setup_init(&vi);
+    if(!documented(r2)){ snprintf(kind,sizeof(kind),"undocumented_rc:setup_init:%d",r2); acc_bad(A,kind,desc); }
+    rc=r1?r1:r2;
+    if(r1&&r2==0){ snprintf(kind,sizeof(kind),"setup_init_succeeds_after_failed_%s:%d",fn1,r1); acc_bad(A,kind,desc); rc=0; }
+    snprintf(cls+k,sizeof(cls)-k,":setup_init:%d:%s",r2,tl);
+  }
+  cs_add(&A->cls,cls,1);
+  if(rc==0){
+    char sk[100],gl[400]; encstat es={0,0,0,0,0,0}; codec_setup_info *ci=(codec_setup_info*)vi.codec_setup;
+    if(vi.channels!=ch||vi.rate!=rate){ snprintf(kind,sizeof(kind),"request_not_echoed:%s:ch%d_rate%ld",path?"setup_init":fn,vi.channels,vi.rate); acc_bad(A,kind,desc); }
+    snprintf(sk,sizeof(sk),"%ld/%s/%s",ch,managed?"M":"V",tl); cs_add(&A->succ,sk,1);
+    geom_label(&vi,gl,sizeof(gl)); cs_add(geo,gl,1);
+    *lpr=(ci->hi.lowpass_kHz*1000.)/(vi.rate/2.);     /* the same expression vorbis_encode_residue_setup compares against 1 */
+    if(ns<=0)ns=3*ci->blocksizes[1];
+    pipeline(&vi,ch,rate,100,ns,pb,sizeof(pb),&es);
+    if(pb[0]){ snprintf(kind,sizeof(kind),"after_success:%s",pb); acc_bad(A,kind,desc); }
+    snprintf(sk,sizeof(sk),"geom/%s",es.bigpad?"bigpad_not_encoded":(es.packets?"packets":"nopackets")); cs_add(&A->enc,sk,1);
+    snprintf(sk,sizeof(sk),"L%ld/S%ld",es.longb,es.shortb); cs_add(blk,sk,1);
+  }
+  vorbis_info_clear(&vi);
+  if(!info_is_zero(&vi))acc_bad(A,"info_not_zero_after_clear",desc);
+  vorbis_info_clear(&vi);
+  if(wa_live_bytes!=base){ char lk[300]; snprintf(lk,sizeof(lk),"%s:%s",cls,desc); cs_add(&A->leak,lk,wa_live_bytes-base); }
   wa_on=0;
 }
 
@@ -453,7 +531,7 @@ static void one_history(acc *A,int base,int a,int b,int c,const int *ops,int enc
     if(!found){ char sk[120]; int k=snprintf(sk,sizeof(sk),"%s:%d:",hex,r2); for(i=0;i<L;i++)k+=snprintf(sk+k,sizeof(sk)-k,"%s%d",i?".":"",ops[i]); cs_add(states,sk,1); }
   }
   if(enc&&r2==0){
-    encstat es={0,0,0,0}; char sk[64]; long ns=1100; codec_setup_info *ci=(codec_setup_info*)vi.codec_setup;
+    encstat es={0,0,0,0,0,0}; char sk[64]; long ns=1100; codec_setup_info *ci=(codec_setup_info*)vi.codec_setup;
     /* the average-bitrate floater moves at most 15/damping steps per second of audio: give a managed set-up 0.75 s (<= 40000 samples,
        <= 6 channels) so that a floater that drifts has the time to leave its range */
     if(ci->bi.reservoir_bits>0&&ci->bi.avg_rate>0&&vi.channels<=6){ ns=vi.rate*3/4; if(ns<1100)ns=1100; if(ns>40000)ns=40000; }
@@ -490,14 +568,14 @@ int main(int argc,char **argv){
   __sanitizer_set_death_callback(on_death);
   signal(SIGILL,on_signal); signal(SIGABRT,on_signal);
   while(getline(&line,&lcap,cf)>0){
-    char *sv,*tok; long idx; char mode; acc A; sbuf out; struct itimerval it; long v[40]; int nv=0; cset states;
-    memset(&A,0,sizeof(A)); memset(&out,0,sizeof(out)); memset(&states,0,sizeof(states));
+    char *sv,*tok; long idx; char mode; acc A; sbuf out; struct itimerval it; long v[40]; char *ts[40]; int nv=0; cset states,geo,blk; double lpr=-1.;
+    memset(&A,0,sizeof(A)); memset(&out,0,sizeof(out)); memset(&states,0,sizeof(states)); memset(&geo,0,sizeof(geo)); memset(&blk,0,sizeof(blk));
     tok=strtok_r(line," \n",&sv); if(!tok)continue; idx=atol(tok); g_cur=idx;
     tok=strtok_r(NULL," \n",&sv); if(!tok){ printf("%ld BADCASE\n",idx); fflush(stdout); continue; } mode=tok[0];
-    while((tok=strtok_r(NULL," \n",&sv))&&nv<40)v[nv++]=atol(tok);
+    while((tok=strtok_r(NULL," \n",&sv))&&nv<40){ ts[nv]=tok; v[nv++]=atol(tok); }
     memset(&it,0,sizeof(it)); it.it_value.tv_sec=timeout; setitimer(ITIMER_PROF,&it,NULL);
     g_nskip=0; g_ord=-1; g_desc[0]=0;
-    { int fixed=(mode=='C'&&nv>=6)?6+(int)v[5]:(mode=='S'?(nv>0&&v[0]?9:7):6); int k; for(k=fixed;k<nv&&g_nskip<16;k++)g_skip[g_nskip++]=v[k]; }
+    { int fixed=(mode=='C'&&nv>=6)?6+(int)v[5]:(mode=='S'?(nv>0&&v[0]?9:7):(mode=='L'?8:6)); int k; for(k=fixed;k<nv&&g_nskip<16;k++)g_skip[g_nskip++]=v[k]; }
     if(mode=='G'&&nv>=6){
       int path=v[0],ri,qi; long ch=v[1];
       for(ri=0;ri<NRATES;ri++){ if(v[2]>=0&&v[2]!=ri)continue;
@@ -512,6 +590,9 @@ int main(int argc,char **argv){
       /* explicit tuple: S 0 <path> <ch> <rate> <qi> <pl> <ns>   |   S 1 <path> <ch> <rate> <max> <nominal> <min> <pl> <ns> */
       if(v[0]==0){ if(v[4]<0||v[4]>=NQUALS){ printf("%ld BADCASE\n",idx); fflush(stdout); continue; } one_setup(&A,0,v[1],v[2],v[3],QUALS[v[4]],0,0,0,v[5],v[6]); }
       else one_setup(&A,1,v[1],v[2],v[3],0,v[4],v[5],v[6],v[7],v[8]);
+    }else if(mode=='L'&&nv>=8){
+      int has_lp=strcmp(ts[6],"-")!=0;
+      one_geom(&A,v[0]!=0,v[1]!=0,v[2],v[3],v[0]?0.f:strtof(ts[4],NULL),v[0]?v[4]:0,(int)v[5],has_lp,has_lp?strtod(ts[6],NULL):0.,v[7],&geo,&blk,&lpr);
     }else if(mode=='C'&&nv>=6){
       int base=v[0],a=v[1],b=v[2],c=v[3],enc=v[4],nfix=v[5],L=a+b+c,ops[8],k,okc=1;
       if(base<0||base>=NBASES||L>6||nfix>L||nfix<0||nv<6+nfix)okc=0;
@@ -530,11 +611,12 @@ int main(int argc,char **argv){
     cs_emit(&A.succ,&out,"succ",",");
     cs_emit(&A.enc,&out,"enc",",");
     cs_emit(&states,&out,"st",",");
+    if(mode=='L'){ cs_emit(&geo,&out,"geo",","); cs_emit(&blk,&out,"blk",","); sb_add(&out," lpr=%.17g",lpr); }
     cs_emit(&A.leak,&out,"leak",",");
     sb_raw(&out," bad="); if(A.bad.s)sb_raw(&out,A.bad.s);
     if(wa_overflow)sb_add(&out," WAOVERFLOW");
     printf("%ld %s\n",idx,out.s); fflush(stdout);
-    cs_free(&A.cls); cs_free(&A.succ); cs_free(&A.leak); cs_free(&A.enc); cs_free(&states); __real_free(A.bad.s); __real_free(out.s);
+    cs_free(&A.cls); cs_free(&A.succ); cs_free(&A.leak); cs_free(&A.enc); cs_free(&states); cs_free(&geo); cs_free(&blk); __real_free(A.bad.s); __real_free(out.s);
   }
   return 0;
 }
